@@ -4,6 +4,11 @@ import json, os, subprocess
 ROOT = os.path.dirname(os.path.dirname(os.path.abspath(__file__)))
 
 CLAIMED = {
+    "C01": dict(
+        text="Generated-input search against an independent integer model of GF(2^255-19): every field operation of the serial FieldElement of each of the six builds (u64, u32, fiat-u64, fiat-u32; the simd/avx512 builds use the u64 serial field) reached through the guarded hook, on 32-byte inputs (special, non-canonical, bit 255) and on raw limb vectors inside the documented headroom incl. all-limbs-at-bound and k*p-shifted representations; results compared on canonical bytes and on the value of the raw result limbs. Checked builds (debug assertions + overflow checks). Exploration level, not a proof.",
+        note="Trusts the reference model and the hook wrappers (thin, additive). Admissible limb ranges are the documented ones (u64 < 2^54; u32 b < 1.75; fiat tight bounds).",
+        technique="property-based testing (proptest) against a reference model, raw-limb generators at the contract boundary",
+        design="3/C01"),
     "C02": dict(
         text="Generated-input search against an independent big-integer model of Z/l: every public scalar constructor and operator, on structured operands (k*l+-d, powers of two, all-ones limbs, solved-for products and sums), in all six back-end builds (both limb widths), with debug assertions and overflow checks on. Exploration level: no violation on >=60k cases per build (quick), not a proof.",
         note="Trusts the reference model (self-tested against Python integers and published vectors) and the sha2 crate for SHA-512. Arithmetic on unreduced scalars is documented as undefined and excluded.",
